@@ -11,6 +11,7 @@ import SecpZkp.Gen.F_generator
 import SecpZkp.Gen.P_ecdsa
 import SecpZkp.Gen.P_schnorr
 import SecpZkp.Gen.P_keys
+import SecpZkp.Gen.P_api
 import SecpZkp.Gen.K_int128struct
 /-
   `k_run <set>.<def> <in>* / <out>*` : executes a translated C function (MiniC IR regenerated from the
@@ -109,7 +110,7 @@ def hFRun : Handler
 -/
 def pTable : List (String × AlgIR.Fn) :=
   (Gen.Pecdsa.all.map fun p => ("Pecdsa." ++ p.1, p.2)) ++ (Gen.Pschnorr.all.map fun p => ("Pschnorr." ++ p.1, p.2)) ++
-  (Gen.Pkeys.all.map fun p => ("Pkeys." ++ p.1, p.2))
+  (Gen.Pkeys.all.map fun p => ("Pkeys." ++ p.1, p.2)) ++ (Gen.Papi.all.map fun p => ("Papi." ++ p.1, p.2))
 
 def scArg (st : AlgIR.State) (name tok : String) : Option AlgIR.State := do
   let b ← hexN? 32 tok
@@ -140,11 +141,31 @@ def hPRun : Handler
         let kb ← hexN? 32 k; let tb ← hexN? 32 t
         let o := AlgIR.execL { bs := [("seckey", kb), ("tweak32", tb)] } fn.body
         some (join [showHex (o.ints.get "ret" 0), hx (o.byGet "seckey")])
+      else if f == "Papi.xonly_pubkey_tweak_add" then do
+        let q ← pt? k; let tb ← hexN? 32 t
+        let o := AlgIR.execL { pt := [("internal_pubkey", q)], bs := [("tweak32", tb)] } fn.body
+        some (join [showHex (o.ints.get "ret" 0), showPt (o.ptGet "output_pubkey"), "i" ++ toString (o.ints.get "illegal" 0)])
       else if f == "Pkeys.ec_pubkey_tweak_add" || f == "Pkeys.ec_pubkey_tweak_mul" then do
         let q ← pt? k; let tb ← hexN? 32 t
         let o := AlgIR.execL { pt := [("pubkey", q)], bs := [("tweak32", tb)] } fn.body
         some (join [showHex (o.ints.get "ret" 0), showPt (o.ptGet "pubkey"), "i" ++ toString (o.ints.get "illegal" 0)])
       else none
+    | "Papi.ecdsa_verify", [sg, m, pk] =>
+      let (r, s) ← sig? sg; let mb ← hexN? 32 m; let q ← pt? pk
+      let o := AlgIR.execL { sc := [("sig.r", r), ("sig.s", s)], bs := [("msghash32", mb)], pt := [("pubkey", q)] } fn.body
+      some (join [showHex (o.ints.get "ret" 0), "i" ++ toString (o.ints.get "illegal" 0)])
+    | "Papi.ecdsa_signature_normalize", [sg] =>
+      let (r, s) ← sig? sg
+      let o := AlgIR.execL { sc := [("sigin.r", r), ("sigin.s", s)] } fn.body
+      some (join [showHex (o.ints.get "ret" 0), showSig (o.scGet "sigout.r" % N, o.scGet "sigout.s" % N)])
+    | "Papi.ec_pubkey_create", [k] =>
+      let kb ← hexN? 32 k
+      let o := AlgIR.execL { bs := [("seckey", kb)] } fn.body
+      some (join [showHex (o.ints.get "ret" 0), showPt (o.ptGet "pubkey")])
+    | "Papi.ec_seckey_verify", [k] =>
+      let kb ← hexN? 32 k
+      let o := AlgIR.execL { bs := [("seckey", kb)] } fn.body
+      some (showHex (o.ints.get "ret" 0))
     | "Pkeys.ec_seckey_negate", [k] =>
       let kb ← hexN? 32 k
       let o := AlgIR.execL { bs := [("seckey", kb)] } fn.body
